@@ -221,9 +221,16 @@ def _shards(units, n):
     return out
 
 
-def _write_workspace(d, shards, features, extra_deps="", extra_prelude=""):
+def _rname(j):
+    return "runner" if j == 0 else "runner%d" % j
+
+
+def _write_workspace(d, shards, features, extra_deps="", extra_prelude="", nrunners=1):
+    """nrunners: the shards are linked into that many binaries (shard i into runner i % nrunners) - one binary of
+    more than 2 GB does not link"""
     os.makedirs(d, exist_ok=True)
-    members = ["shard%d" % i for i in range(len(shards))] + ["runner"]
+    nrunners = max(1, min(nrunners, len(shards)))
+    members = ["shard%d" % i for i in range(len(shards))] + [_rname(j) for j in range(nrunners)]
     open(os.path.join(d, "Cargo.toml"), "w").write(
         '[workspace]\nresolver = "2"\nmembers = [%s]\n[profile.dev]\ndebug = false\nincremental = false\nopt-level = 0\n' % ", ".join('"%s"' % m for m in members))
     os.makedirs(os.path.join(d, ".cargo"), exist_ok=True)
@@ -254,22 +261,27 @@ def _write_workspace(d, shards, features, extra_deps="", extra_prelude=""):
         if not os.path.exists(p) or open(p).read() != new:
             open(p, "w").write(new)
         json.dump(line_of, open(os.path.join(sd, "lines.json"), "w"))
-    rd = os.path.join(d, "runner")
-    os.makedirs(os.path.join(rd, "src"), exist_ok=True)
-    open(os.path.join(rd, "Cargo.toml"), "w").write(
-        '[package]\nname = "runner"\nversion = "0.0.0"\nedition = "2021"\n[dependencies]\nserde_json = "1"\n' +
-        "".join('shard%d = { path = "../shard%d" }\n' % (i, i) for i in range(len(shards))))
-    main = "use shard0::prelude;\nfn register(v: &mut Vec<prelude::Entry>) { %s }\n" % " ".join(
-        "{ let mut w = Vec::new(); shard%d::register(&mut w); for e in w { v.push(prelude::Entry { name: e.name, info: e.info, samples: e.samples, deser: e.deser, export_all_to: e.export_all_to }); } }" % i
-        for i in range(len(shards)))
-    main += open(os.path.join(TEMPLATES, "runner_main.rs")).read()
-    p = os.path.join(rd, "src", "main.rs")
-    if not os.path.exists(p) or open(p).read() != main:
-        open(p, "w").write(main)
+    for j in range(nrunners):
+        mine = [i for i in range(len(shards)) if i % nrunners == j]
+        rd = os.path.join(d, _rname(j))
+        os.makedirs(os.path.join(rd, "src"), exist_ok=True)
+        open(os.path.join(rd, "Cargo.toml"), "w").write(
+            '[package]\nname = "%s"\nversion = "0.0.0"\nedition = "2021"\n[dependencies]\nserde_json = "1"\n' % _rname(j) +
+            "".join('shard%d = { path = "../shard%d" }\n' % (i, i) for i in mine))
+        main = "use shard%d::prelude;\nfn register(v: &mut Vec<prelude::Entry>) { %s }\n" % (mine[0], " ".join(
+            "{ let mut w = Vec::new(); shard%d::register(&mut w); for e in w { v.push(prelude::Entry { name: e.name, info: e.info, samples: e.samples, deser: e.deser, export_all_to: e.export_all_to }); } }" % i
+            for i in mine))
+        main += open(os.path.join(TEMPLATES, "runner_main.rs")).read()
+        p = os.path.join(rd, "src", "main.rs")
+        if not os.path.exists(p) or open(p).read() != main:
+            open(p, "w").write(main)
 
 
-def _cargo_build(d):
-    p = vlib.cargo(["build", "--offline", "--keep-going", "--message-format=json", "-q", "-p", "runner"], d, capture=True)
+def _cargo_build(d, nrunners=1):
+    pk = []
+    for j in range(nrunners):
+        pk += ["-p", _rname(j)]
+    p = vlib.cargo(["build", "--offline", "--keep-going", "--message-format=json", "-q"] + pk, d, capture=True)
     errs = []
     for l in p.stdout.splitlines():
         if not l.startswith("{"):
@@ -281,6 +293,38 @@ def _cargo_build(d):
         if m.get("reason") == "compiler-message" and m["message"].get("level") == "error":
             errs.append(m)
     return p.returncode, errs, p.stdout
+
+
+_ALL = []
+
+
+def _du(path):
+    try:
+        return int(subprocess.run(["du", "-sk", path], stdout=subprocess.PIPE, stderr=subprocess.DEVNULL, text=True).stdout.split()[0]) * 1024
+    except (IndexError, ValueError):
+        return 0
+
+
+def cleanup(limit_gb=3.0):
+    """disk hygiene at the end of a check: the build output of the large corpora of this process is removed
+    (the observations stay cached; the workspace is rebuilt when a check needs the binaries again)"""
+    for c in _ALL:
+        t = os.path.join(c.dir, "target")
+        if os.path.isdir(t) and _du(t) > limit_gb * 2 ** 30:
+            shutil.rmtree(t, ignore_errors=True)
+
+
+def make_room(own, min_free_gb=30.0):
+    """before a large build: if the disk is nearly full, the build output of OTHER corpora goes (largest first)"""
+    root = os.path.join(vlib.BUILD, "corpus")
+    if not os.path.isdir(root) or shutil.disk_usage(root).free > min_free_gb * 2 ** 30:
+        return
+    cands = sorted(((_du(os.path.join(root, d, "target")), d) for d in os.listdir(root) if os.path.join(root, d) != own), reverse=True)
+    for size, d in cands:
+        if shutil.disk_usage(root).free > min_free_gb * 2 ** 30 or size < 2 ** 28:
+            break
+        log("disk nearly full: removing the build output of corpus %s (%.1f GB)" % (d, size / 2 ** 30))
+        shutil.rmtree(os.path.join(root, d, "target"), ignore_errors=True)
 
 
 class Corpus:
@@ -297,30 +341,55 @@ class Corpus:
         # large corpora are cut into more shards
         size = sum(len(u.src) + 3 * sum(len(x) for x in u.samples) + 700 for u in units)
         self.nshards = max(NSHARDS, min(192, -(-size // 350000)))
+        self.nrunners = 1
+        _ALL.append(self)
+
+    def _ws(self, units):
+        _write_workspace(self.dir, _shards(units, self.nshards), self.features, self.extra_deps, self.extra_prelude, self.nrunners)
+
+    def _exes(self):
+        return [os.path.join(self.dir, "target", "debug", _rname(j)) for j in range(max(1, min(self.nrunners, self.nshards)))]
+
+    def _route(self, names):
+        """unit name -> index of the runner that holds it"""
+        units = [u for u in self.units if u.name not in self.rejected]
+        nr = max(1, min(self.nrunners, self.nshards))
+        where = {}
+        for i, sh in enumerate(_shards(units, self.nshards)):
+            for u in sh:
+                where[u.name] = i % nr
+        return [where[n] for n in names]
 
     def observe(self):
         """-> dict name -> {info, samples}; units rejected at compile time are in self.rejected"""
         if os.path.exists(self.cache):
             c = json.load(open(self.cache))
             self.rejected = c["rejected"]
+            self.nrunners = c.get("nrunners", 1)
             self.cached = True
             return c["obs"]
         self.cached = False
+        make_room(self.dir)
         t0 = time.time()
         units = list(self.units)
         shards_of = lambda us: _shards(us, self.nshards)
         for attempt in range(10):
             shards = shards_of(units)
-            _write_workspace(self.dir, shards, self.features, self.extra_deps, self.extra_prelude)
+            self._ws(units)
             # rustc's memory grows faster than the size of a crate: no shard above ~450 kB of generated source
             biggest = max(os.path.getsize(os.path.join(self.dir, "shard%d" % i, "src", "lib.rs")) for i in range(self.nshards))
             if biggest > 450000 and self.nshards < 192:
                 self.nshards = min(192, -(-self.nshards * biggest // 350000))
                 shards = shards_of(units)
-                _write_workspace(self.dir, shards, self.features, self.extra_deps, self.extra_prelude)
-            rc, errs, out = _cargo_build(self.dir)
+                self._ws(units)
+            rc, errs, out = _cargo_build(self.dir, self.nrunners)
             if rc == 0:
                 break
+            if "relocation R_X86_64" in out and "out of range" in out and self.nrunners < 16:
+                # the binary is too large to link: the same shards, more binaries
+                self.nrunners *= 2
+                log("corpus %s: runner too large to link, %d runners" % (self.tag, self.nrunners))
+                continue
             bad = set()
             for m in errs:
                 for sp in m["message"].get("spans", []):
@@ -338,60 +407,78 @@ class Corpus:
         else:
             raise ToolError("corpus %s still does not build after removing rejected items" % self.tag)
         self.build_s = time.time() - t0
-        exe = os.path.join(self.dir, "target", "debug", "runner")
-        outp = os.path.join(self.dir, "dump.ndjson")
-        p = subprocess.run([exe, "dump", outp], cwd=self.dir)
-        if p.returncode != 0:
-            raise ToolError("corpus runner failed (rc=%s)" % p.returncode)
-        obs = {}
-        for line in open(outp):
-            o = json.loads(line)
-            obs[o["name"]] = o
+        obs = self._dump("dump.ndjson", None)
         os.makedirs(os.path.dirname(self.cache), exist_ok=True)
-        json.dump({"obs": obs, "rejected": self.rejected}, open(self.cache, "w"))
+        json.dump({"obs": obs, "rejected": self.rejected, "nrunners": self.nrunners}, open(self.cache, "w"))
+        return obs
+
+    def _dump(self, fname, env):
+        obs = {}
+        for exe in self._exes():
+            outp = os.path.join(self.dir, fname)
+            p = subprocess.run([exe, "dump", outp], cwd=self.dir, env=env)
+            if p.returncode != 0:
+                raise ToolError("corpus runner failed (rc=%s)" % p.returncode)
+            for line in open(outp):
+                o = json.loads(line)
+                obs[o["name"]] = o
         return obs
 
     def observe_reversed(self):
         """the same observation with the entries evaluated in the opposite order (same build, new process)"""
         self._ensure_built()
-        exe = os.path.join(self.dir, "target", "debug", "runner")
-        outp = os.path.join(self.dir, "dump-reversed.ndjson")
         env = dict(os.environ)
         env["VERIF_ORDER"] = "reverse"
-        p = subprocess.run([exe, "dump", outp], cwd=self.dir, env=env)
-        if p.returncode != 0:
-            raise ToolError("corpus runner failed (rc=%s)" % p.returncode)
-        return {o["name"]: o for o in map(json.loads, open(outp))}
+        return self._dump("dump-reversed.ndjson", env)
 
     def _ensure_built(self):
         units = [u for u in self.units if u.name not in self.rejected]
-        _write_workspace(self.dir, _shards(units, self.nshards), self.features, self.extra_deps, self.extra_prelude)
-        rc, errs, out = _cargo_build(self.dir)
+        self._ws(units)
+        rc, errs, out = _cargo_build(self.dir, self.nrunners)
         if rc != 0:
             raise ToolError("corpus %s does not build any more:\n%s" % (self.tag, out[-3000:]))
 
     def export(self, reqs):
         """reqs: list of dict(name, dir[, cwd]) -> list of dict(name, result)"""
         self._ensure_built()
-        exe = os.path.join(self.dir, "target", "debug", "runner")
         inp = os.path.join(self.dir, "export.in")
         outp = os.path.join(self.dir, "export.out")
-        vlib.write_ndjson(inp, reqs)
-        p = subprocess.run([exe, "export", inp, outp], cwd=self.dir)
-        if p.returncode != 0:
-            raise ToolError("corpus runner (export) failed")
-        return [json.loads(l) for l in open(outp)]
+        exes = self._exes()
+        if len(exes) == 1:
+            vlib.write_ndjson(inp, reqs)
+            if subprocess.run([exes[0], "export", inp, outp], cwd=self.dir).returncode != 0:
+                raise ToolError("corpus runner (export) failed")
+            return [json.loads(l) for l in open(outp)]
+        # several binaries: maximal runs of consecutive requests for the same binary, in order
+        route = self._route([r["name"] for r in reqs])
+        res, k = [], 0
+        while k < len(reqs):
+            e = k
+            while e < len(reqs) and route[e] == route[k]:
+                e += 1
+            vlib.write_ndjson(inp, reqs[k:e])
+            if subprocess.run([exes[route[k]], "export", inp, outp], cwd=self.dir).returncode != 0:
+                raise ToolError("corpus runner (export) failed")
+            res += [json.loads(l) for l in open(outp)]
+            k = e
+        return res
 
     def deser(self, reqs):
         """reqs: list of (id, name, json text) -> dict id -> {ok: reser} | {err}"""
         self._ensure_built()
-        exe = os.path.join(self.dir, "target", "debug", "runner")
         inp = os.path.join(self.dir, "deser.in")
         outp = os.path.join(self.dir, "deser.out")
-        with open(inp, "w") as f:
-            for i, n, j in reqs:
-                f.write(json.dumps({"id": i, "name": n, "json": j}) + "\n")
-        p = subprocess.run([exe, "deser", inp, outp], cwd=self.dir)
-        if p.returncode != 0:
-            raise ToolError("corpus runner (deser) failed")
-        return {o["id"]: o for o in map(json.loads, open(outp))}
+        exes = self._exes()
+        route = self._route([n for _, n, _ in reqs]) if len(exes) > 1 else [0] * len(reqs)
+        out = {}
+        for r_, exe in enumerate(exes):
+            mine = [q for q, w in zip(reqs, route) if w == r_]
+            if not mine:
+                continue
+            with open(inp, "w") as f:
+                for i, n, j in mine:
+                    f.write(json.dumps({"id": i, "name": n, "json": j}) + "\n")
+            if subprocess.run([exe, "deser", inp, outp], cwd=self.dir).returncode != 0:
+                raise ToolError("corpus runner (deser) failed")
+            out.update({o["id"]: o for o in map(json.loads, open(outp))})
+        return out
